@@ -164,7 +164,7 @@ def write_header(entries, layout, eng=None, concrete=False):
                 o.byte(K["SIZE"])
                 k = 0
                 for n in folders:
-                    for e in data[k:k + n - 1]:
+                    for e in data[k:k + max(n - 1, 0)]:      # (n = 0 at k = 0 must not become the slice [0:-1])
                         o.num(e["size"])
                     k += n
             if crc_at != "none":
